@@ -257,3 +257,17 @@ fn test_timeformat() {
         .unwrap();
     assert_eq!(expr.eval(()).unwrap().to_string(), "19:37");
 }
+
+#[test]
+fn test_timestamp_far_out_of_range() {
+    let mut env = minijinja::Environment::new();
+    minijinja_contrib::add_to_environment(&mut env);
+    for expr in [
+        "(-9223372036854775808)|datetimeformat",
+        "9223372036854775807|dateformat",
+        "1e300|timeformat",
+    ] {
+        let err = env.compile_expression(expr).unwrap().eval(()).unwrap_err();
+        assert_eq!(err.kind(), minijinja::ErrorKind::InvalidOperation, "{}", expr);
+    }
+}
